@@ -130,6 +130,26 @@ fn c_limb_shift(c: &Case, rep: &mut Rep) {
     opforms!(u32, "u32");
     opforms!(i32, "i32");
     opforms!(usize, "usize");
+    // usize shift amounts that do not fit in u32 are >= BITS for every width: all operator forms panic
+    if s == 0 {
+        rep.class("usize_shift_beyond_u32");
+        for big in [1usize << 32, (1usize << 32) + 3, usize::MAX] {
+            panics_iff(rep, "Limb.op_shl_usize_beyond_u32", true, || l << big);
+            panics_iff(rep, "Limb.op_shr_usize_beyond_u32", true, || l >> big);
+            panics_iff(rep, "Limb.op_shl_ref_usize_beyond_u32", true, || &l << big);
+            panics_iff(rep, "Limb.op_shr_ref_usize_beyond_u32", true, || &l >> big);
+            panics_iff(rep, "Limb.op_shl_assign_usize_beyond_u32", true, || {
+                let mut t = l;
+                t <<= big;
+                t
+            });
+            panics_iff(rep, "Limb.op_shr_assign_usize_beyond_u32", true, || {
+                let mut t = l;
+                t >>= big;
+                t
+            });
+        }
+    }
     // num_traits::WrappingShl on Limb follows the primitive semantics (shift masked to the width)
     let wm = x.wrapping_shl(s);
     if WrappingShl::wrapping_shl(&l, s).0 != wm {
@@ -264,6 +284,26 @@ fn uint_shift<const L: usize>(c: &Case, rep: &mut Rep) {
     opforms!(u32, "u32");
     opforms!(i32, "i32");
     opforms!(usize, "usize");
+    // usize shift amounts that do not fit in u32 are >= BITS for every width: all operator forms panic
+    if s == 0 {
+        rep.class("usize_shift_beyond_u32");
+        for big in [1usize << 32, (1usize << 32) + 3, usize::MAX] {
+            panics_iff(rep, "op_shl_usize_beyond_u32", true, || ux << big);
+            panics_iff(rep, "op_shr_usize_beyond_u32", true, || ux >> big);
+            panics_iff(rep, "op_shl_ref_usize_beyond_u32", true, || &ux << big);
+            panics_iff(rep, "op_shr_ref_usize_beyond_u32", true, || &ux >> big);
+            panics_iff(rep, "op_shl_assign_usize_beyond_u32", true, || {
+                let mut t = ux;
+                t <<= big;
+                t
+            });
+            panics_iff(rep, "op_shr_assign_usize_beyond_u32", true, || {
+                let mut t = ux;
+                t >>= big;
+                t
+            });
+        }
+    }
 }
 fn c_uint_shift(c: &Case, rep: &mut Rep) {
     dispatch!(c.w[0], [1, 2, 3, 4, 5, 6, 8, 16], uint_shift(c, rep))
@@ -561,6 +601,26 @@ fn int_shift<const L: usize>(c: &Case, rep: &mut Rep) {
     opforms!(u32, "u32");
     opforms!(i32, "i32");
     opforms!(usize, "usize");
+    // usize shift amounts that do not fit in u32 are >= BITS for every width: all operator forms panic
+    if s == 0 {
+        rep.class("usize_shift_beyond_u32");
+        for big in [1usize << 32, (1usize << 32) + 3, usize::MAX] {
+            panics_iff(rep, "Int.op_shl_usize_beyond_u32", true, || ix << big);
+            panics_iff(rep, "Int.op_shr_usize_beyond_u32", true, || ix >> big);
+            panics_iff(rep, "Int.op_shl_ref_usize_beyond_u32", true, || &ix << big);
+            panics_iff(rep, "Int.op_shr_ref_usize_beyond_u32", true, || &ix >> big);
+            panics_iff(rep, "Int.op_shl_assign_usize_beyond_u32", true, || {
+                let mut t = ix;
+                t <<= big;
+                t
+            });
+            panics_iff(rep, "Int.op_shr_assign_usize_beyond_u32", true, || {
+                let mut t = ix;
+                t >>= big;
+                t
+            });
+        }
+    }
 }
 fn c_int_shift(c: &Case, rep: &mut Rep) {
     dispatch!(c.w[0], [1, 2, 3, 4, 5, 6, 8, 16], int_shift(c, rep))
@@ -681,6 +741,26 @@ fn c_boxed_shift(c: &Case, rep: &mut Rep) {
     opforms!(u32, "u32");
     opforms!(i32, "i32");
     opforms!(usize, "usize");
+    // usize shift amounts that do not fit in u32 are >= BITS for every width: all operator forms panic
+    if s == 0 {
+        rep.class("usize_shift_beyond_u32");
+        for big in [1usize << 32, (1usize << 32) + 3, usize::MAX] {
+            panics_iff(rep, "boxed.op_shl_usize_beyond_u32", true, || b.clone() << big);
+            panics_iff(rep, "boxed.op_shr_usize_beyond_u32", true, || b.clone() >> big);
+            panics_iff(rep, "boxed.op_shl_ref_usize_beyond_u32", true, || &b << big);
+            panics_iff(rep, "boxed.op_shr_ref_usize_beyond_u32", true, || &b >> big);
+            panics_iff(rep, "boxed.op_shl_assign_usize_beyond_u32", true, || {
+                let mut t = b.clone();
+                t <<= big;
+                t
+            });
+            panics_iff(rep, "boxed.op_shr_assign_usize_beyond_u32", true, || {
+                let mut t = b.clone();
+                t >>= big;
+                t
+            });
+        }
+    }
 }
 
 fn c_boxed_bits(c: &Case, rep: &mut Rep) {
